@@ -102,6 +102,15 @@ func (s *sbSkel) stmts(list []ast.Stmt, indent int) {
 		return
 	}
 	st, rest := list[0], list[1:]
+	if sw, isSwitch := st.(*ast.SwitchStmt); isSwitch {
+		if is, ok := desugarSwitch(sw); ok {
+			st = is
+			if blk, isBlk := is.(*ast.BlockStmt); isBlk && len(blk.List) == 0 {
+				s.stmts(rest, indent)
+				return
+			}
+		}
+	}
 	switch x := st.(type) {
 	case *ast.ExprStmt:
 		if c, ok := x.X.(*ast.CallExpr); ok {
